@@ -98,42 +98,91 @@ class FnTarget(_AbstractDistribution):
         return mis, grad
 
 
-class ScriptedRng:
-    """Stand-in for numpy.random.Generator on `sampler.rng`: answers from scripts, logs requests."""
+class GenBase:
+    """The surface of numpy.random.Generator that samplers, mass matrices and distributions may use, built on two hooks:
+    `_z(shape)` (standard normal variates) and `_u(shape, low, high)` (uniform variates).  Whichever method the code
+    under test calls -- normal / standard_normal, uniform / random -- ends in the same hook, so the stand-ins do not
+    depend on the spelling of a draw.  Everything else is forwarded to a real generator `_fb`."""
+
+    _fb = None
+
+    def _z(self, shape):
+        raise NotImplementedError
+
+    def _u(self, shape, low, high):
+        return (self._fb or numpy.random.default_rng(0)).uniform(low, high, shape)
+
+    @staticmethod
+    def _shape(size):
+        if size is None:
+            return None
+        return tuple(size) if hasattr(size, "__len__") else (int(size),)
+
+    def standard_normal(self, size=None, dtype=None, out=None):
+        return self._z(self._shape(size))
+
+    def normal(self, loc=0.0, scale=1.0, size=None):
+        z = self._z(self._shape(size))
+        if numpy.all(numpy.asarray(loc) == 0.0) and numpy.all(numpy.asarray(scale) == 1.0):
+            return z
+        return loc + scale * z
+
+    def random(self, size=None, dtype=None, out=None):
+        return self._u(self._shape(size), 0.0, 1.0)
+
+    def uniform(self, low=0.0, high=1.0, size=None):
+        return self._u(self._shape(size), low, high)
+
+    def __getattr__(self, name):
+        if name.startswith("_"):
+            raise AttributeError(name)
+        fb = self.__dict__.get("_fb") or numpy.random.default_rng(0)
+        return getattr(fb, name)
+
+
+class ScriptedRng(GenBase):
+    """Stand-in for numpy.random.Generator on `sampler.rng`: answers from scripts, logs requests (and the values
+    returned).  A request for a standard normal array and one for normal(0, 1) are the same request; so are random()
+    and uniform(0, 1)."""
 
     def __init__(self, normals=None, uniforms=None, factors=None, fallback_seed=0):
         self.normals = list(normals or [])
         self.uniforms = list(uniforms or [])
         self.factors = list(factors or [])
         self.requests = []
+        self.values = []
         self._fb = numpy.random.default_rng(fallback_seed)
         self.fault = None
 
-    def normal(self, loc=0.0, scale=1.0, size=None):
-        self.requests.append(("normal", size))
+    def _z(self, shape):
+        self.requests.append(("normal", shape))
         if self.fault:
             self.fault("rng.normal", len(self.requests) - 1)
-        n = int(numpy.prod(size)) if size is not None else 1
         if self.normals:
-            z = numpy.array(self.normals.pop(0), dtype=float).reshape(size if size is not None else ())
+            z = numpy.array(self.normals.pop(0), dtype=float).reshape(shape if shape is not None else ())
         else:
-            z = numpy.round(self._fb.normal(size=size) * 16) / 16
+            z = numpy.round(self._fb.normal(size=shape) * 16) / 16
+        self.values.append(z)
         return z
 
-    def uniform(self, low=0.0, high=1.0, size=None):
+    def _u(self, shape, low, high):
         self.requests.append(("uniform", float(low), float(high)))
         if self.fault:
             self.fault("rng.uniform", len(self.requests) - 1)
         if (low, high) == (0.5, 1.5):
-            if self.factors:
-                return self.factors.pop(0)
-            return 0.5 + numpy.round(self._fb.uniform() * 64) / 64
-        if self.uniforms:
-            return self.uniforms.pop(0)
-        return numpy.round(self._fb.uniform() * 1024) / 1024
+            v = self.factors.pop(0) if self.factors else 0.5 + numpy.round(self._fb.uniform() * 64) / 64
+        elif self.uniforms:
+            v = self.uniforms.pop(0)
+        else:
+            v = numpy.round(self._fb.uniform() * 1024) / 1024
+        if shape is not None:
+            v = numpy.full(shape, v)
+        self.values.append(v)
+        return v
 
     def choice(self, *a, **k):
         self.requests.append(("choice",))
+        self.values.append(None)
         return self._fb.choice(*a, **k)
 
 
